@@ -12,7 +12,7 @@ import (
 func init() {
 	register(&propDef{
 		id: "C01", level: "other", perCfg: false,
-		explain: "Necessary structural conditions of C01, decided for all paths (hence for all call sequences, handler scripts and interleavings). R1 single write path: every write to a connection performed by service-side code reachable from the connection loop is one of the reply-path write sites (a Write on the Call's connection); the raw socket is not written elsewhere. R2 oneway suppression: every such write site carries the fact `call.In.Oneway == false`, in its own function or - for unexported helpers - at every call site transitively, so built-in error replies inherit it. R3 continues only with more: every reply value whose Continues member can be true reaches the write helper only on paths that established `In.More == true`; on the refusing edge every return is a non-nil error and no write is reachable. R4 sequential dispatch: in the connection loop (found by role: started with `go` by a serving function, reads frames) the dispatch is a plain synchronous call on this iteration's frame, the error edges of the read and of the dispatch cannot reach another read, every exit closes the connection, and no goroutine is started by the dispatch path. R5 isolation: code reachable from the loop writes no package variable and no Service field except the connection counter; each request is decoded into a fresh zero value of its own activation (json.Unmarshal leaves absent members untouched, so a reused target leaks flags of the previous call); the per-call values are not stored in shared state. R8 (= C04.T7) every function between the dispatcher and the connection loop returns the result of its delivery unchanged, so a handler error ends the connection.",
+		explain: "Necessary structural conditions of C01, decided for all paths (hence for all call sequences, handler scripts and interleavings). R1 single write path: every write to a connection performed by service-side code reachable from the connection loop is one of the reply-path write sites (a Write on the Call's connection); the raw socket is not written elsewhere. R2 oneway suppression: every such write site carries the fact `call.In.Oneway == false`, in its own function or - for unexported helpers - at every call site transitively, so built-in error replies inherit it. R3 continues only with more: every reply value whose Continues member can be true reaches the write helper only on paths that established `In.More == true`; on the refusing edge every return is a non-nil error and no write is reachable. R4 sequential dispatch: in the connection loop (found by role: started with `go` by a serving function, reads frames) the dispatch is a plain synchronous call on this iteration's frame, the error edges of the read and of the dispatch cannot reach another read, every exit closes the connection, and no goroutine is started by the dispatch path. R5 isolation: code reachable from the loop writes no package variable and no Service field except the connection counter; each request is decoded into a fresh zero value of its own activation (json.Unmarshal leaves absent members untouched, so a reused target leaks flags of the previous call); the per-call values are not stored in shared state. R8 (= C04.T7) every function between the dispatcher and the connection loop returns the result of its delivery unchanged, so a handler error ends the connection. R6 (= C17.D1-D3) and R7 (= C10.S6) are re-evaluated here: a reply write that cannot be cancelled or is made under the Service mutex stalls the sequential loop.",
 		notDec:  "That encoding/json renders each reply correctly; real interleavings and segmentation (C02); behaviour of user dispatchers.",
 		trusted: []string{"encoding/json.Unmarshal leaves members absent from the input untouched (hence the fresh-target rule)"},
 		run:     runC01,
